@@ -106,10 +106,18 @@ class PathSym:
         self.solver.add(e)
 
     def choose(self, intexpr, lo, hi):
+        """concretise an Int term in [lo, hi): linear for small ranges, bisection for large ones"""
+        if hi - lo > 8:
+            self.constrain(intexpr >= lo)
+            self.constrain(intexpr < hi)
+            while hi - lo > 1:
+                mid = (lo + hi) // 2
+                if self.decide(intexpr < mid):
+                    hi = mid
+                else:
+                    lo = mid
+            return lo
         for v in range(lo, hi):
-            if v == hi - 1:
-                # last candidate: still ask (the domain may exclude it)
-                pass
             if self.decide(intexpr == v):
                 return v
         raise Infeasible()
